@@ -163,15 +163,16 @@ def check(case):
         want2, _, cpts2, _ = expected(x, x)
         compare(y2, want2, cpts2, "after set_params on the wrapped detector and a new fit: ")
     elif second == "new_bounds_refit":
-        # the user tightens the bounds on the object they have (plain attributes, as get_params reports them) and fits again
+        # the user tightens the bounds on the object they have (set_params: assigning the attributes directly is not an interface the
+        # library supports - its detectors derive private state from their hyper-parameters in __init__) and fits again
         new_lo, new_hi = (lo + 0.5 * abs(lo) + 0.25, hi) if case["lo"] != "-inf" and lo + 0.5 * abs(lo) + 0.25 <= hi else (lo, hi)
         new_hi = new_hi - 0.25 * abs(new_hi) - 0.125 if np.isfinite(new_hi) and new_hi - 0.25 * abs(new_hi) - 0.125 >= new_lo else new_hi
-        with sut("bounds re-assigned, StatThresholdAnomaliser.fit/predict again"):
-            det.stat_lower, det.stat_upper = new_lo, new_hi
+        with sut("bounds changed with set_params, StatThresholdAnomaliser.fit/predict again"):
+            det.set_params(stat_lower=new_lo, stat_upper=new_hi)
             y2 = det.fit(Xc).predict(Xc)
         lo, hi = new_lo, new_hi
         want2, _, cpts2, _ = expected(x, x)
-        compare(y2, want2, cpts2, "after the bounds were re-assigned and a new fit: ")
+        compare(y2, want2, cpts2, "after the bounds were changed with set_params and a new fit: ")
     elif second in ("refill_predict", "refill_refit"):
         # the caller's buffer is refilled in place with the next batch
         x2 = np.asarray(case["x2"], dtype=float)
